@@ -15,6 +15,7 @@
 package main
 
 import (
+	"context"
 	"encoding/binary"
 	"encoding/hex"
 	"fmt"
@@ -27,9 +28,11 @@ import (
 	"strings"
 
 	"github.com/Basekick-Labs/msgpack/v6"
+	"github.com/basekick-labs/arc/internal/config"
 	"github.com/basekick-labs/arc/internal/ingest"
 	"github.com/basekick-labs/arc/internal/verif/vh"
 	"github.com/basekick-labs/arc/internal/verifclock"
+	"github.com/basekick-labs/arc/internal/wal"
 	"github.com/basekick-labs/arc/pkg/models"
 	"github.com/rs/zerolog"
 )
@@ -106,15 +109,23 @@ func newDec(typed bool) *ingest.MessagePackDecoder {
 
 func cp(b []byte) []byte { return append(make([]byte, 0, len(b)), b...) }
 
-// T= part: the typed fast path alone.
-func typedLine(body []byte) string {
-	return vh.Guard(func() string {
+// T= part: the typed fast path alone. hasNils: the hit carries at least one NULL cell.
+func typedLine(body []byte) (line string, hasNils bool) {
+	line = vh.Guard(func() string {
 		rec, ok := ingest.VerifC02TryTyped(newDec(true), cp(body))
 		if !ok {
 			return "miss"
 		}
+		for _, vl := range rec.Batch.Validity {
+			for _, v := range vl {
+				if !v {
+					hasNils = true
+				}
+			}
+		}
 		return "hit" + batchStr(rec.Measurement, rec.NumRecords, rec.Batch)
 	})
+	return
 }
 
 func errClass(err error) string {
@@ -1073,17 +1084,178 @@ func (g *G) mutate(b []byte) ([]byte, string) {
 // ---------------------------------------------------------------- one case
 
 type runner struct {
-	c    *vh.Ctx
-	hits int
+	c         *vh.Ctx
+	hits      int
+	walSeen   int
+	walStride int  // every walStride-th typed hit with NULLs goes through the WAL stage
+	forceWAL  bool // edge grid / corpus: all of them
+	walRuns   int
+}
+
+// ---------------------------------------------------------------- WAL stage (what the rows are rebuilt from after a crash)
+
+func walCfg() *config.IngestConfig {
+	return &config.IngestConfig{
+		MaxBufferSize: 1 << 30, MaxBufferAgeMS: 3600_000, Compression: "none",
+		FlushWorkers: 1, FlushQueueSize: 4, ShardCount: 2,
+	}
+}
+
+// walEntries: payloads of the framed entries of every WAL file in dir, rendered `raw:<hex body>` for
+// an enveloped raw client payload (must carry database "db") or `rows` for a row-record entry.
+func walEntries(dir string) ([]string, error) {
+	fs, _ := filepath.Glob(filepath.Join(dir, "*"))
+	sort.Strings(fs)
+	var out []string
+	for _, f := range fs {
+		b, err := os.ReadFile(f)
+		if err != nil {
+			return nil, err
+		}
+		off := wal.WALFileHeaderSize
+		for off+wal.WALEntryHeaderSize <= len(b) {
+			n := int(binary.BigEndian.Uint32(b[off : off+4]))
+			end := off + wal.WALEntryHeaderSize + n
+			if end > len(b) {
+				break
+			}
+			pl := b[off+wal.WALEntryHeaderSize : end]
+			if len(pl) > 3 && pl[0] == wal.WALEnvelopeMarker {
+				db, inner := wal.ParseEnvelope(pl, "?")
+				if db != "db" {
+					out = append(out, "raw-db-"+hx([]byte(db)))
+				} else {
+					out = append(out, "raw:"+hx(inner))
+				}
+			} else {
+				out = append(out, "rows")
+			}
+			off = end
+		}
+	}
+	return out, nil
+}
+
+// walRun: the real handler glue with a WAL configured — Decode (flag), ArrowBuffer.Write with a real
+// wal.Writer — then the process "dies" (buffer abandoned, its object store discards writes), a fresh
+// buffer replays the WAL through the real recovery callbacks of cmd/arc/main.go, flushes, and the
+// stored Parquet rows are read back. Returns (WAL entries, stored rows).
+func (r *runner) walRun(body []byte, typed bool) (entries string, stored string) {
+	ctx := context.Background()
+	dir, err := os.MkdirTemp(r.c.OutDir, "wal")
+	if err != nil {
+		return "err:" + err.Error(), ""
+	}
+	defer os.RemoveAll(dir)
+	out := vh.Guard(func() string {
+		w, err := wal.NewWriter(&wal.WriterConfig{WALDir: dir, SyncMode: wal.SyncModeAsync, BufferSize: 64, Logger: zerolog.Nop()})
+		if err != nil {
+			return "err:walwriter:" + err.Error()
+		}
+		d1 := newDisk()
+		v1 := d1.open()
+		live := ingest.NewArrowBuffer(walCfg(), v1, zerolog.Nop())
+		live.SetWAL(w)
+		res, err := newDec(typed).Decode(cp(body))
+		if err != nil {
+			w.Close()
+			v1.kill()
+			live.Close()
+			return "err:decode"
+		}
+		werr := live.Write(ctx, "db", res)
+		w.Close() // drains the async queue: the WAL is durable
+		v1.kill() // crash: nothing of the in-memory buffer reaches the store
+		live.Close()
+		es, err := walEntries(dir)
+		if err != nil {
+			return "err:walread:" + err.Error()
+		}
+		entries = strings.Join(es, " ")
+		if werr != nil {
+			entries += " write-rejected"
+		}
+		// restart
+		d2 := newDisk()
+		rec := ingest.NewArrowBuffer(walCfg(), d2.open(), zerolog.Nop())
+		rowCb := createWALRecoveryCallback(rec, zerolog.Nop())
+		colCb := createColumnarRecoveryCallback(rec, zerolog.Nop())
+		_, rerr := wal.NewRecovery(dir, zerolog.Nop()).RecoverWithOptions(ctx, rowCb, &wal.RecoveryOptions{ColumnarCallback: colCb})
+		ferr := rec.FlushAll(ctx)
+		rec.Close()
+		rows, derr := d2.allRows()
+		var ts []string
+		for i := range rows {
+			ts = append(ts, rows[i].text(nil))
+		}
+		sort.Strings(ts)
+		stored = strings.Join(ts, " ; ")
+		if rerr != nil {
+			stored += " recovery-error"
+		}
+		if ferr != nil {
+			stored += " flush-error"
+		}
+		if derr != nil {
+			stored += " readback-error:" + derr.Error()
+		}
+		return ""
+	})
+	if out != "" {
+		return out, stored
+	}
+	return entries, stored
+}
+
+func (r *runner) walStage(body []byte) {
+	c := r.c
+	r.walRuns++
+	eOn, sOn := r.walRun(body, true)
+	eOff, sOff := r.walRun(body, false)
+	short := func(e string) string { // model-level rendering
+		return e
+	}
+	rejOn, rejOff := strings.HasSuffix(eOn, "write-rejected"), strings.HasSuffix(eOff, "write-rejected")
+	if rejOn && rejOff {
+		// ArrowBuffer.Write rejects the record with the flag on AND off (e.g. an empty column name): the
+		// request is not acknowledged either way, there is no WAL record "of the write" to compare (the
+		// generic path appends before it validates, the typed path validates first — a C05 matter);
+		// what ends up stored after replay is still compared below.
+		c.Tag("wal-stage-write-rejected-both")
+	} else {
+		c.Op("wal "+hx(body), "on="+short(eOn)+" off="+short(eOff))
+	}
+	c.Tag("wal-stage")
+	if eOn != eOff && !(rejOn && rejOff) {
+		c.Fail("wal-entry-differs:typed-vs-generic",
+			"the WAL record of the same request differs with the typed fast path on/off (rows would be rebuilt from different data after a crash) ON="+clip(eOn)+" OFF="+clip(eOff),
+			"wal "+hx(body))
+		c.Tag("PROPFAIL wal-entry-differs:typed-vs-generic")
+	}
+	if sOn != sOff {
+		c.Fail("stored-differs-after-replay:typed-vs-generic",
+			"rows / null positions stored after crash + WAL replay differ with the typed fast path on/off ON="+clip(sOn)+" OFF="+clip(sOff),
+			"wal "+hx(body))
+		c.Tag("PROPFAIL stored-differs-after-replay:typed-vs-generic")
+	}
 }
 
 func (r *runner) run(body []byte, tags ...string) {
 	c := r.c
-	t := canonPanic(typedLine(body), nil)
+	tl, hasNils := typedLine(body)
+	t := canonPanic(tl, nil)
 	gline := canonPanic(decodeObs(body, false, false), body)
 	c.Op("dec "+hx(body), "T="+t+" G="+gline)
 	hit := strings.HasPrefix(t, "hit")
 	r.monitor(body)
+	// WAL stage: only for writes BOTH settings accept (inside the known Skip-vs-Unmarshal class the
+	// generic path rejects the request, so there is no second WAL record to compare with)
+	if hit && hasNils && len(body) < 4096 && strings.HasPrefix(gline, "ok[C") {
+		r.walSeen++
+		if r.walSeen%r.walStride == 0 || r.forceWAL {
+			r.walStage(body)
+		}
+	}
 	if hit {
 		r.hits++
 		c.Tag("typed-hit")
@@ -1489,7 +1661,7 @@ func readCorpus(dir string) [][]byte {
 		}
 		for _, ln := range strings.Split(string(b), "\n") {
 			fl := strings.Fields(ln)
-			if len(fl) == 2 && fl[0] == "dec" {
+			if len(fl) == 2 && (fl[0] == "dec" || fl[0] == "wal") {
 				if fl[1] == "-" {
 					out = append(out, nil)
 				} else if x, err := hex.DecodeString(fl[1]); err == nil {
@@ -1509,7 +1681,7 @@ func main() {
 		defer pprof.StopCPUProfile()
 	}
 	verifclock.Set(nowUs * 1000)
-	r := &runner{c: c}
+	r := &runner{c: c, walStride: 1, forceWAL: true}
 	if c.Replay != "" {
 		for _, b := range readCorpus(c.Replay) {
 			r.run(b, "replay")
@@ -1520,6 +1692,8 @@ func main() {
 	for _, b := range readCorpus("/verif/corpus/C02") {
 		r.run(b, "corpus")
 	}
+	r.forceWAL = false
+	r.walStride = 6 // edge grid: every 6th typed hit with NULL cells
 	if os.Getenv("C02_NOEDGE") == "" {
 		r.edgeGrid()
 	}
@@ -1530,6 +1704,12 @@ func main() {
 			n = 1_400_000
 		}
 	}
+	// random part: every k-th typed hit with NULL cells goes through the (much slower) WAL stage
+	r.forceWAL = false
+	r.walStride = 12
+	if c.Thorough() {
+		r.walStride = 60
+	}
 	g := &G{r: vh.NewRand(c.Seed), c: c}
 	for i := 0; i < n; i++ {
 		b, kind := g.body()
@@ -1538,5 +1718,6 @@ func main() {
 		r.run(b, "kind-"+kind, "mut-"+mut)
 	}
 	c.Extra["typed_hits"] = r.hits
+	c.Extra["wal_stage_runs"] = r.walRuns
 	c.Finish("non-trivial = the typed fast path hits or the generic path gets past msgpack.Unmarshal")
 }
